@@ -52,7 +52,7 @@ func TestRaceAudit(t *testing.T) {
 		}
 		for _, d := range deltas {
 			v := vcase{s, d.name, d.d, 0}
-			cases = append(cases, ra.Case{Key: fmt.Sprintf("era=%s|struct=%d|coin%s", EraNames[s.Era], si, d.name), PerG: true, Fn: func(g int) string {
+			cases = append(cases, ra.Case{Key: fmt.Sprintf("conservation|era=%s|struct=%d|coin%s", EraNames[s.Era], si, d.name), PerG: true, Fn: func(g int) string {
 				seed := int64(40 + g)
 				b := build(v, newUniverse(seed), seed, false)
 				if !b.ok {
